@@ -159,7 +159,7 @@ fn record(st: &mut Stats, d: &DataDesc, r: Result<bool, Failure>, case: impl Fn(
 }
 
 pub fn run(ctx: &mut Ctx) {
-    ctx.rule = "systematic sweep: every payload length 0..=242 x every FOpts length 0..=15 x 4 frame types x {Data, MacCommands} (+ no-payload) with random contents/keys/counters from the boundary set, through DefaultCrypto and DefaultNetworkCrypto, exact/short/long buffers; refusal grid (FOpts 16/17, FOpts with port 0, missing AppSKey, short buffers); proptest-random descriptions; JoinRequest/JoinAccept descriptions (all DLSettings/RxDelay bytes, CFList none/type0/type1). Non-trivial: payload >= 17 bytes (>= 2 keystream blocks) or FCnt >= 2^16 or FOpts non-empty or a refusal case or JoinAccept with CFList; distinct by hash of the full case".into();
+    ctx.rule = "systematic sweep: every payload length 0..=242 x every FOpts length 0..=15 x 4 frame types x {Data, MacCommands} (+ no-payload) with random contents/keys/counters from the boundary set, through DefaultCrypto and DefaultNetworkCrypto, exact/short/long buffers; refusal grid (FOpts 16/17 and far beyond the limit: 18..65552 bytes incl. the lengths that wrap to 0..15 mod 256 / mod 65536, FOpts with port 0, missing AppSKey, short buffers); proptest-random descriptions; JoinRequest/JoinAccept descriptions (all DLSettings/RxDelay bytes, CFList none/type0/type1). Non-trivial: payload >= 17 bytes (>= 2 keystream blocks) or FCnt >= 2^16 or FOpts non-empty or a refusal case or JoinAccept with CFList; distinct by hash of the full case".into();
     ctx.assumptions = vec![
         "reference codec (verif-core/src/oracle/refcodec.rs, aes.rs) written from FIPS-197, RFC 4493 and the LoRaWAN 1.0.x specification; self-tested against published vectors at start".into(),
         "FCtrl bit 6 is written on uplinks only and bit 4 on downlinks only, as the builder documents".into(),
@@ -236,6 +236,30 @@ pub fn run(ctx: &mut Ctx) {
                                         record(st, &d, r, || data_case(&d, &nwk, a, buflen, net));
                                     }
                                 }
+                            }
+                        }
+                    }
+                }
+            }
+            // FOpts far beyond the limit: lengths that wrap to 0..=15 in a narrower integer (mod 256, mod
+            // 65536) and their neighbours, with buffers large enough to hold such a "frame"
+            for ftype in FType::ALL {
+                for fol in [18usize, 31, 32, 240, 255, 256, 257, 263, 270, 271, 272, 300, 511, 512, 519, 527, 528, 65535, 65536, 65537, 65543, 65551, 65552] {
+                    for pk in 0..3 {
+                        let nwk = rng.key();
+                        let app = rng.key();
+                        let pl = rng.below(20) as usize;
+                        let payload = match pk {
+                            0 => RefPayload::None,
+                            1 => RefPayload::Data { port: 1 + rng.below(255) as u8, data: rng.bytes(pl) },
+                            _ => RefPayload::Mac(rng.bytes(pl)),
+                        };
+                        let flags = rng.next_u32();
+                        let d = DataDesc { ftype, dev_addr: rng.next_u32(), adr: flags & 1 != 0, adr_ack_req: flags & 2 != 0, ack: flags & 4 != 0, f_pending: flags & 8 != 0, fcnt: *rng.pick(&FCNT_BOUNDARIES), fopts: rng.bytes(fol), payload };
+                        for buflen in [fol + 400, 256, fol + 12] {
+                            for net in [false, true] {
+                                let r = check_data(&d, &nwk, Some(&app), buflen, net);
+                                record(st, &d, r, || data_case(&d, &nwk, Some(&app), buflen, net));
                             }
                         }
                     }
